@@ -131,19 +131,39 @@ static struct crypto_aes_key * LK[2];	/* the library's expanded keys (this proce
 static struct ref_aes RK[2];
 static uint8_t * ks_blk[2][4]; static uint8_t * ks_have[2][4]; static uint64_t ks_nblk;
 
-static void
+static const char * a_sig(char * out, size_t n, const char * rule);
+static int a_skipped;			/* this process skipped cases after reporting that the library refused a legal key / a stream object */
+
+/*
+ * The two stream keys of this process.  Returns 0, or -1 after reporting a violation: crypto_aes_key_expand() of a
+ * legal 16- or 32-byte key returned NULL although no allocation was refused (the caller skips its unit / case; nothing
+ * may dereference LK[] then).  A NULL while the selftest-fault unit's single injected allocation failure is consumed by
+ * this very call is legitimate (the changed library may order its allocations differently): the call is repeated once.
+ */
+static int
 keys_init(void)
 {
 	int k;
 
-	if (LK[0] != NULL) return;
+	if (LK[0] != NULL && LK[1] != NULL) return (0);
 	if (ref_aes_selftest() != 0) vf_engine_error("reference AES does not reproduce the FIPS-197 vectors (%d)", ref_aes_selftest());
+	ks_nblk = (maxpos_all + 4400) / 16 + 2;
 	for (k = 0; k < 2; k++) {
+		int f0 = alloc_failed_count();
+		if (LK[k] != NULL) continue;
 		hc_fill(KEYB[k], KEYLEN[k], 0, 10 + (uint32_t)k);
 		ref_aes_expand(&RK[k], KEYB[k], KEYLEN[k]);
-		if ((LK[k] = crypto_aes_key_expand(KEYB[k], KEYLEN[k])) == NULL) vf_engine_error("crypto_aes_key_expand failed");
+		LK[k] = crypto_aes_key_expand(KEYB[k], KEYLEN[k]);
+		if (LK[k] == NULL && alloc_failed_count() > f0) LK[k] = crypto_aes_key_expand(KEYB[k], KEYLEN[k]);
+		if (LK[k] == NULL) {
+			char sig[120], rj[160];
+			snprintf(rj, sizeof(rj), "{\"h\":\"aes\",\"kind\":\"streamkey\",\"kid\":%d,\"rt\":%d,\"misalign\":%d}", k, a_rt, a_misalign);
+			a_skipped = 1;
+			vf_violation(a_sig(sig, sizeof(sig), "aeskey:expand-failed-streamkey"), rj, "crypto_aes_key_expand(%zu-byte key) returned NULL although no allocation was refused (AES path %d)", KEYLEN[k], verif_aes_path());
+			return (-1);
+		}
 	}
-	ks_nblk = (maxpos_all + 4400) / 16 + 2;
+	return (0);
 }
 static const uint8_t *
 ks_block(int kid, int nidx, uint64_t b)
@@ -279,8 +299,14 @@ block_case(int kidx, int bidx, int report)
 
 	block_pt(bidx, pt);
 	ref_aes_expand(&rk, key, klen); ref_aes_encrypt(&rk, pt, want);
-	if ((lk = crypto_aes_key_expand(key, klen)) == NULL) vf_engine_error("crypto_aes_key_expand failed");
 	snprintf(rj, sizeof(rj), "{\"h\":\"aes\",\"kind\":\"block\",\"keyidx\":%d,\"blockidx\":%d,\"rt\":%d,\"misalign\":%d}", kidx, bidx, a_rt, a_misalign);
+	if ((lk = crypto_aes_key_expand(key, klen)) == NULL) {
+		/* the allocator is healthy in every caller (tracking only, or the misaligning mode): the library refused a legal key; the case is skipped */
+		a_skipped = 1;
+		vf_violation(a_sig(sig, sizeof(sig), "aeskey:expand-failed"), rj, "crypto_aes_key_expand(AES-%zu key #%d) returned NULL although no allocation was refused (AES path %d)", klen * 8, kidx, verif_aes_path());
+		if (report) printf("AES-%zu key #%d: crypto_aes_key_expand returned NULL\n", klen * 8, kidx);
+		return (0);
+	}
 	for (mode = 0; mode < 2; mode++) {
 		memset(buf, CANARY, sizeof(buf));
 		if (mode == 0) { memcpy(in, pt, 16); out = buf + 16; crypto_aes_encrypt_block(in, out, lk); }
@@ -300,16 +326,17 @@ block_case(int kidx, int bidx, int report)
 static void
 block_unit(int u)
 {
-	int kidx, bidx; uint64_t n = 0;
+	int kidx, bidx, skipped = 0; uint64_t n = 0, e;
 	for (kidx = u * BLOCK_KEYS_PER_UNIT; kidx < (u + 1) * BLOCK_KEYS_PER_UNIT && kidx < NKEYS; kidx++) {
 		if (kidx < 384 && kidx % key_stride) continue;
 		for (bidx = 0; bidx < NBLKS; bidx++) {
 			if (bidx < 128 && bidx % blk_stride) continue;
 			vf_setcase("aes block key#%d pt#%d", kidx, bidx);
-			n += block_case(kidx, bidx, 0);
+			n += e = block_case(kidx, bidx, 0);
+			if (e == 0) skipped = 1;	/* key expansion refused (reported): the unit is not complete */
 		}
 	}
-	vf_count("aesblock.states", n); vf_count("aesblock.transitions", n); vf_count("aesblock.traces", n); vf_count("aesblock.units_done", 1);
+	vf_count("aesblock.states", n); vf_count("aesblock.transitions", n); vf_count("aesblock.traces", n); vf_count("aesblock.units_done", skipped ? 0 : 1);
 	vf_sample("aes block keys #%d..#%d: %llu encryptions (separate and in place) equal to the FIPS-197 reference", u * BLOCK_KEYS_PER_UNIT, (u + 1) * BLOCK_KEYS_PER_UNIT - 1, (unsigned long long)n);
 }
 
@@ -540,13 +567,24 @@ ssucc(struct es * E, const uint8_t * st, size_t len, void * cookie)
 		}
 }
 
+/* crypto_aesctr_alloc() returned NULL with a healthy allocator (no caller injects a failure while streams are made): a violation; the unit / replay is skipped. */
+static void
+aesctr_alloc_failed(int pair, int variant, int content)
+{
+	char sig[120], rj[200];
+
+	snprintf(rj, sizeof(rj), "{\"h\":\"aes\",\"kind\":\"ctralloc\",\"pair\":%d,\"variant\":%d,\"content\":%d,\"rt\":%d}", pair, variant, content, a_rt);
+	a_skipped = 1;
+	vf_violation(a_sig(sig, sizeof(sig), "aesctr:alloc-failed"), rj, "crypto_aesctr_alloc() returned NULL although no allocation was refused");
+}
+
 static struct crypto_aesctr *
 fresh_stream(int kid, int nidx)
 {
 	struct crypto_aesctr * S = crypto_aesctr_alloc();
 	uint8_t a5[16];
 
-	if (S == NULL) vf_engine_error("crypto_aesctr_alloc failed");
+	if (S == NULL) return (NULL);	/* reported by the caller: aesctr_alloc_failed() */
 	memset(a5, 0xA5, 16);
 	verif_aesctr_set(S, NULL, UINT64_C(0xA5A5A5A5A5A5A5A5), a5, a5);	/* deterministic stale content */
 	crypto_aesctr_init2(S, LK[kid], NONCE[nidx]);
@@ -568,13 +606,14 @@ stream_unit(int pair, int variant, int content)
 	for (kid = 0; kid < 2; kid++) for (i = 0; i < 2; i++) {
 		int nidx = (pair + i) % 4;
 		struct crypto_aesctr * S0 = fresh_stream(kid, nidx);
+		if (S0 == NULL) { aesctr_alloc_failed(pair, variant, content); es_free(&E); free(Q.T.parent); free(Q.T.op); return; }
 		st_read(&s, S0); s.kid = kid; s.nidx = nidx; s.pos = 0;
 		crypto_aesctr_free(S0);
 		st_pack(nb, &s);
 		es_initial(&E, nb, STLEN);
 		tr_set(&Q.T, E.n - 1, UINT32_MAX, 0);
 	}
-	Q.S = crypto_aesctr_alloc();
+	if ((Q.S = crypto_aesctr_alloc()) == NULL) { aesctr_alloc_failed(pair, variant, content); es_free(&E); free(Q.T.parent); free(Q.T.op); return; }
 	es_run(&E, ssucc, &Q);
 	vf_count("aesctr.states", E.n); vf_count("aesctr.transitions", E.transitions); vf_count("aesctr.traces", E.transitions);
 	vf_count("aesctr.units_done", es_complete(&E) ? 1 : 0);
@@ -606,8 +645,9 @@ selftest_fault_unit(int f, int rt)
 	if (hc_expect_aes(HC_BUILD_MASK, rt) != 1) { vf_count("selftest-fault.units_done", 1); return; }	/* nothing to disable */
 	if (LK[0] != NULL || verif_aes_path() != 9) vf_engine_error("selftest-fault unit: the AES code was already initialised in this process");
 	alloc_reset(); alloc_fail_at((size_t)(1 + f), 0); alloc_track(1);
-	keys_init();
+	k = keys_init();
 	alloc_track(0);
+	if (k != 0) { alloc_fail_at(0, 0); return; }	/* violation reported: key expansion failed beyond the one injected failure; unit not done */
 	if (alloc_failed_count() != 1) vf_engine_error("selftest-fault unit: %d allocations failed (expected exactly 1)", alloc_failed_count());
 	alloc_fail_at(0, 0);
 	/* which path the library uses after the failed self-test is its own business (the unchanged code falls back to the portable one): only outputs are compared */
@@ -631,12 +671,22 @@ misalign_unit(void)
 {
 	int k, b, kid, nidx, i, ip; uint64_t n = 0; struct crypto_aes_key * save[2];
 
-	keys_init();
+	if (keys_init()) return;	/* violation reported; unit not done */
 	alloc_reset(); alloc_track(1); alloc_misalign(1); a_misalign = 1;
 	for (k = 384; k < NKEYS; k++) for (b = 128; b < NBLKS; b++) { vf_setcase("misaligned allocator: block key=%d blk=%d", k, b); n += block_case(k, b, 0); }
 	for (kid = 0; kid < 2; kid++) {
-		save[kid] = LK[kid];
-		if ((LK[kid] = crypto_aes_key_expand(KEYB[kid], KEYLEN[kid])) == NULL) vf_engine_error("crypto_aes_key_expand failed (misaligned allocator)");
+		struct crypto_aes_key * mk = crypto_aes_key_expand(KEYB[kid], KEYLEN[kid]);
+		if (mk == NULL) {
+			/* the misaligning allocator refuses nothing: the library failed on a block at 8 mod 16; the rest of the unit is skipped */
+			char sig[120], rj[160];
+			snprintf(rj, sizeof(rj), "{\"h\":\"aes\",\"kind\":\"streamkey\",\"kid\":%d,\"rt\":%d,\"misalign\":1}", kid, a_rt);
+			a_skipped = 1;
+			vf_violation(a_sig(sig, sizeof(sig), "aeskey:expand-failed-misaligned"), rj, "crypto_aes_key_expand(%zu-byte key) returned NULL with an allocator that hands out blocks at 8 mod 16 and refuses nothing (AES path %d)", KEYLEN[kid], verif_aes_path());
+			if (kid == 1) { crypto_aes_key_free(LK[0]); LK[0] = save[0]; }
+			alloc_misalign(0); alloc_track(0); a_misalign = 0;
+			return;
+		}
+		save[kid] = LK[kid]; LK[kid] = mk;
 		if (((uintptr_t)LK[kid] & 15) != 8) vf_engine_error("misaligned allocator: expanded key at %p is not 8 mod 16", (void *)LK[kid]);
 	}
 	for (kid = 0; kid < 2; kid++) for (nidx = 0; nidx < 4; nidx++) for (i = 0; i < nBUFLEN; i++) for (ip = 0; ip < 2; ip++) {
@@ -671,7 +721,7 @@ haes_run_unit(uint64_t u, int rt)
 	a_rt = rt;
 	if (u >= (uint64_t)(n_block_units + n_buf_units + n_stream_units + n_fault_units)) { used_ctr = 1; misalign_unit(); return; }
 	if (u >= (uint64_t)(n_block_units + n_buf_units + n_stream_units)) { used_ctr = 1; selftest_fault_unit((int)(u - (uint64_t)(n_block_units + n_buf_units + n_stream_units)), rt); return; }
-	keys_init();
+	if (keys_init()) return;	/* violation reported; the unit is skipped (and not counted as done) */
 	/* stream units first: they are the long ones */
 	if (u < (uint64_t)n_stream_units) {
 		int su = (int)u;
@@ -681,14 +731,37 @@ haes_run_unit(uint64_t u, int rt)
 	else block_unit((int)u - n_stream_units - n_buf_units);
 }
 
+/*
+ * Non-vacuity (C03), see check_hash_paths() in h_hash.c: intended path selected and entered - or the library's own
+ * AES-NI self-test (asked again through the shim) fails, in which case the run-time fallback to OpenSSL is the
+ * library's documented behaviour, the pair is counted and its outputs have been compared with the reference as usual.
+ */
 void
 haes_check_paths(int rt)
 {
 	int ea = hc_expect_aes(HC_BUILD_MASK, rt), p = verif_aes_path();
-	char k[64];
+	char k[64], b[40];
 
 	if (a_faulted) return;		/* selftest_fault_unit() made its own checks */
-	if (p != ea) vf_engine_error("build %d rt %d: AES selected path %d, intended %d (self-test failed or forcing ineffective)", HC_BUILD_MASK, rt, p, ea);
+	if (a_skipped) return;		/* cases of this unit were skipped after a reported violation (key expansion / stream allocation refused): the entry counters say nothing */
+	if (p != ea) {
+		int t;
+		alloc_fail_at(0, 0);
+		t = ea == 1 ? verif_aes_selftest() : -1;
+		if (ea != 1 || t != 1 || p != 0)
+			vf_engine_error("build %d rt %d: AES selected path %d, intended %d; the library's own self-test asked again: %s: the forcing of the cpusupport flags did not work", HC_BUILD_MASK, rt, p, ea,
+			    t < 0 ? "not tried" : t ? "FAILS" : "passes");
+		if (used_ctr && verif_aesctr_path() != 0) vf_engine_error("build %d rt %d: AES fell back to OpenSSL after a failed self-test but AES-CTR selected path %d", HC_BUILD_MASK, rt, verif_aesctr_path());
+		/* the AES-NI block function was entered by the self-test at most (two vectors), the bulk AES-NI stream code never */
+		if (verif_aes_calls_aesni > 2 || verif_aesctr_calls_aesni != 0 || verif_aes_calls_openssl == 0)
+			vf_engine_error("build %d rt %d: AES fell back to OpenSSL after a failed self-test but the entry counters aesni=%llu openssl=%llu ctr-aesni=%llu do not fit that", HC_BUILD_MASK, rt,
+			    (unsigned long long)verif_aes_calls_aesni, (unsigned long long)verif_aes_calls_openssl, (unsigned long long)verif_aesctr_calls_aesni);
+		snprintf(k, sizeof(k), "rt%d.aes_disabled_by_selftest", rt); vf_count(k, 1);
+		vf_count("selftest_fallback_children", 1);
+		printf("build %d rt {%s}: the library's own self-test of the AES-NI code fails; it fell back to OpenSSL at run time (selection changes speed only); outputs were compared with the reference as usual\n",
+		    HC_BUILD_MASK, hc_maskname(rt, b));
+		return;
+	}
 	if (used_ctr && verif_aesctr_path() != ea) vf_engine_error("build %d rt %d: AES-CTR selected path %d, intended %d", HC_BUILD_MASK, rt, verif_aesctr_path(), ea);
 	if (ea == 1 ? (verif_aes_calls_aesni < 3 || verif_aes_calls_openssl != 0 || (used_ctr && verif_aesctr_calls_aesni == 0))
 	    : (verif_aes_calls_aesni != 0 || verif_aesctr_calls_aesni != 0 || verif_aes_calls_openssl == 0))
@@ -725,9 +798,16 @@ haes_replay(const char * js)
 
 	if (rt >= 0) { a_rt = rt; hc_force_rt(rt); }
 	if (hc_json_int(js, "misalign", 0)) { alloc_reset(); alloc_track(1); alloc_misalign(1); a_misalign = 1; printf("allocator returns blocks at 8 mod 16\n"); }
-	keys_init();
 	hc_json_str(js, "kind", kind, sizeof(kind));
+	if (keys_init()) { printf("crypto_aes_key_expand returned NULL for one of the two stream keys (AES path: %s): VIOLATION\n", hc_pathname(2, verif_aes_path())); return (0); }
 	printf("AES path: %s\n", hc_pathname(2, verif_aes_path()));
+	if (!strcmp(kind, "streamkey")) { printf("both stream keys were expanded: ok\n"); return (0); }
+	if (!strcmp(kind, "ctralloc")) {
+		struct crypto_aesctr * S = fresh_stream(0, 0);
+		if (S == NULL) { aesctr_alloc_failed((int)hc_json_int(js, "pair", 0), (int)hc_json_int(js, "variant", 0), (int)hc_json_int(js, "content", 0)); printf("crypto_aesctr_alloc returned NULL: VIOLATION\n"); }
+		else { printf("crypto_aesctr_alloc returned an object: ok\n"); crypto_aesctr_free(S); }
+		return (0);
+	}
 	if (!strcmp(kind, "block")) { block_case((int)hc_json_int(js, "keyidx", 0), (int)hc_json_int(js, "blockidx", 0), 1); return (0); }
 	if (!strcmp(kind, "ctrbuf")) {
 		ctrbuf_case((int)hc_json_int(js, "kid", 0), (int)hc_json_int(js, "nidx", 0), (size_t)hc_json_int(js, "len", 0), (int)hc_json_int(js, "inplace", 0), (int)hc_json_int(js, "content", 0), 1);
@@ -741,7 +821,7 @@ haes_replay(const char * js)
 
 		memset(&Q, 0, sizeof(Q));
 		Q.variant = (int)hc_json_int(js, "variant", 0); Q.content = (int)hc_json_int(js, "content", 0); Q.pair = nidx;
-		Q.S = fresh_stream(kid, nidx);
+		if ((Q.S = fresh_stream(kid, nidx)) == NULL) { aesctr_alloc_failed(nidx, Q.variant, Q.content); printf("crypto_aesctr_alloc returned NULL: VIOLATION\n"); return (0); }
 		st_read(&s, Q.S); s.kid = kid; s.nidx = nidx; s.pos = 0;
 		printf("AES-CTR: AES-%zu, nonce %016llx, variant %d (%s, input alignment %d), content %s\n", KEYLEN[kid] * 8, (unsigned long long)NONCE[nidx], Q.variant,
 		    (Q.variant & 2) ? "in place" : "separate", Q.variant & 1, hc_content_name[Q.content]);
@@ -785,12 +865,17 @@ main(int argc, char ** argv)
 	haes_finish(1);
 	{
 		/* native selection of this build: report, and fail if the run was meant for the other path */
-		int p; char b[40];
-		keys_init();
+		int p, kf; char b[40];
+		kf = keys_init();	/* non-zero: the library refused a legal key in this process too (violation reported); no selection to judge then */
 		p = verif_aes_path();
 		vf_info("paths", "host features {%s}; aes=%s", hc_maskname(hc_native_rt(), b), hc_pathname(2, p));
-		if (expect_mode == 1 && p != 1) vf_engine_error("run expects the AES-NI path but path=%d", p);
-		if (expect_mode == 2 && p > 0) vf_engine_error("run expects the OpenSSL path but path=%d", p);
+		/* (only without recorded violations: an engine error would discard them, and they are the result then) */
+		if (kf == 0 && vf_nviolations() == 0 && expect_mode == 1 && p != 1) {
+			/* AES-NI rejected by the library's own self-test: legitimately off, the property holds through the fallback */
+			if ((hc_native_rt() & HC_AESNI) && verif_aes_selftest() == 1) vf_count("aes_disabled_by_selftest", 1);
+			else vf_engine_error("run expects the AES-NI path but path=%d (and the library's own self-test passes)", p);
+		}
+		if (kf == 0 && vf_nviolations() == 0 && expect_mode == 2 && p > 0) vf_engine_error("run expects the OpenSSL path but path=%d", p);
 	}
 	return (vf_finish());
 }
